@@ -10,7 +10,12 @@ simulated kernel in which time is a `fractions.Fraction` and only `sleep` (and a
 `waitpid`) advance it; every sleep is logged. (Seeded round 5) The liveness probe is NOT replaced: whatever
 `_pid_exists` the code hands to / defaults in `wait_pid` runs for real over the simulated kernel's `os.kill`
 and over the fake procfs tree, and every environment may carry a procfs VIEW that does not list the (living)
-process for a while (entry removed = hidepid, or `psutil.PROCFS_PATH` pointed at another tree). The same environment goes to the Lean driver, which
+process for a while (entry removed = hidepid, or `psutil.PROCFS_PATH` pointed at another tree). (Seeded round 5, C15-8) The CLOCKS
+are not replaced by name either: there are two virtual clocks — the steady one (`World.timer`, what sleep advances and every instant
+of a case is measured on) and a WALL clock (`World.wall` = steady + base + the steps made so far) — and every binding of a real clock
+function inside psutil (parameter defaults, module-level names, `time.xxx()` calls through a proxy of the `time` module) is swapped
+for the virtual clock of the SAME kind, so which clock each deadline computation reads is part of what is compared; every case may
+carry a `wall` that is stepped forwards / backwards while the call polls. The same environment goes to the Lean driver, which
 answers with the model's observation and with the Spec clauses violated by the model's and by the
 implementation's observation.
 """
@@ -20,6 +25,7 @@ import shutil
 import subprocess
 import sys
 import tempfile
+import time as _realtime
 from fractions import Fraction as Fr
 
 from harness.common import extract, fakeproc
@@ -27,6 +33,7 @@ from harness.common.extract import NotRecognised
 
 PROP = "C15"
 DRIVER_MODULES = ["PsutilModel.Model.C15Gen", "PsutilModel.Model.C15R2", "PsutilModel.Model.C15R3", "PsutilModel.Model.C15Probe",
+                  "PsutilModel.Model.C15Clock",
                   "PsutilModel.Spec.C15"]
 NEEDS_EXT = True
 TRUSTED = [
@@ -35,10 +42,11 @@ TRUSTED = [
     "C15 Process objects are built on a fake procfs (harness/common/fakeproc.py); Process.is_running() is the real code reading that procfs, which the simulated kernel updates when a non-child ends",
     "C15 set(procs) keeps the first inserted of several equal elements (CPython set semantics; checked on every run by the identity observations); an unhashable item is a list",
     "C15 liveness: os.kill(pid, 0) as seen by psutil/_psposix.py, psutil/__init__.py and psutil/_pslinux.py is the simulated kernel's process table (ESRCH / success / EPERM for a foreign process); the procfs tree psutil reads is a VIEW of that table which, per case, does not list a living process during [hideAt, showAt) — realised by removing its entry (hidepid) or by pointing psutil.PROCFS_PATH at a second tree (re-pointed after the object was created); a view never lists a PID the kernel does not have",
+    "C15 clocks: time.monotonic / time.perf_counter (and their _ns forms) as bound anywhere in psutil/__init__.py, _psposix.py, _pslinux.py, _common.py (parameter defaults, module-level names, attribute calls on the `time` module) are the harness's steady virtual clock, time.time (time_ns) is the harness's wall clock = steady clock + base + the steps of the case, time.sleep advances the steady clock only; a clock captured any other way (functools.partial, a C extension) is not virtualised",
     "C15 psutil.Popen objects are built by the real Popen.__init__ with subprocess.Popen replaced by a stub (pid, returncode=None, spawns nothing); subprocess's own poll() is emulated by the harness (reaps the simulated child, stores WEXITSTATUS / -WTERMSIG as CPython's _handle_exitstatus does)",
 ]
 MANIFEST = {
-    "level_text": "Machine-checked Lean 4 proofs over a virtual-time model (exact rationals, fuelled loops) of _psposix.wait_pid, Process.wait, psutil.Popen.wait (psutil's wrapper only) and psutil.wait_procs incl. its argument checks, for EVERY exit instant, timeout, status word, EINTR pattern, set-iteration order and number of processes: never early, status decoding = wait(2) encoding for all exit codes 0-255 and signals 1-126 (with/without core), TimeoutExpired only at/after the deadline carrying seconds/pid and less than one 40 ms poll late, a process that ended by the deadline (in particular strictly between the last poll and the deadline) is never reported as timed out, sleep schedule min(0.1ms*2^n, 40ms), timeout=0 never sleeps, negative timeout -> ValueError, PID 0 -> ValueError with nothing cached, waiting for oneself can only time out, cached later calls, termination with a timeout (explicit fuel bound), EINTR cannot change a returned result; Popen.wait = Process.wait while returncode is unset, stores the returned status in both layers, answers from returncode at once afterwards; wait_procs partition / callback exactly once / returncode / gone-really-ended / alive-really-running at the return instant / return before deadline+40ms / termination with a timeout / ValueError then TypeError argument checks before anything else. Partial: 'TimeoutExpired only with the process still alive' is proved for calls whose last waitpid was not interrupted, with a proved counterexample (EINTR at the deadline) recorded as a known finding and a proof (C15_eintr_no_repair) that no waitpid-polling procedure can meet both clauses under persistent EINTR; the EINTR-at-the-deadline case (C15-eintr-deadline) is the one known finding left; 'negative timeout -> ValueError' for Popen.wait is proved at full strength for the code as it is now (C15_popen_wait_negative, through the obligation cfg_popen_validates_first), the code as found answered from a stored returncode first (proved counterexample C15_popen_wait_negative_counterexample; fixed in /repo by 3859330); syscalls cost zero virtual time. Second extension: wait_procs over psutil.Popen objects and mixed Process/Popen lists is PROVED to be wait_procs over Process objects in which a stored subprocess returncode sits in _exitcode (simulation theorem C15_wait_procs_mixed_is_wait_procs through every loop), so partition / callback once / returncode / gone-ended / deadline hold for them (C15_wait_procs_mixed); of several equal-but-not-identical objects set(procs) keeps the FIRST (C15_set_keeps_first: it alone is waited on, gets returncode, is called back, is returned); an unhashable item is a TypeError after the timeout validation (C15_wait_procs_arguments_unhashable); 'callback exactly once' is proved from ANY reachable intermediate state for ANY number of further passes, with or without timeout (C15_callback_once_any_passes[_no_timeout]); system calls that take time: a costed model of wait_pid (every _timer/waitpid/_pid_exists/_sleep call overshoots by cost k <= delta) equals the zero-cost model for delta = 0 (C15_costed_zero) and satisfies every bound with 40 ms replaced by 40 ms + 5*delta, never-early and not-before-the-deadline unchanged, 'still alive' weakened to 'alive delta before the raise' (C15_costed_bounds). Tied to the code by 16 translator facts (0.0001, *2, 0.04, check-before-sleep, >=, >= 0 validation, 1.0/len(alive), pid<=0 check, callable check, the three-part shape of Popen.wait, `for proc in alive` / `alive = alive - gone` in every pass, `alive = set(procs)` after the validation) feeding the proof obligations cfg_good / cfg_popen_validates_first / cfg_wait_procs_shape, by a differential run of the real functions over a virtual clock comparing result/exception fields, full sleep log, return instant, callback log, subprocess returncode, identity of the objects returned / called back / waited on, the per-call cost sequence of costed runs (400 quick / 20 000 thorough, real wait_pid vs the costed model), by an exhaustive sweep of all 65 536 status words and by the exhaustive enumeration of 2-3 processes x exit pass (1, 2, 3, never) x timeout (None, 50 ms, 3.5 s) = 196 wait_procs runs with a callback. Seeded round 5 (WHICH liveness probe is asked): the model carries a procfs VIEW per process (listed / not listed over time, independent of the kernel's truth) and a Probe (kill | procfs) derived from 3 new translator facts (the ECHILD branch polls `_pid_exists(pid)`; its default is _psposix.pid_exists whose only call is os.kill(pid, 0); _pslinux.Process.wait hands wait_pid no hook) under the obligation cfg_nonchild_probe; C15_wait_any_view / C15_never_early_any_view / C15_process_wait_any_view / C15_hidden_alive_only_times_out: for EVERY view the wait observes exactly what the view-free model observes, so every single-call theorem holds whatever procfs hides, in particular no result while the process is alive-but-hidden; C15_check_gone_any_view: one check_gone of wait_procs (whose is_running() reads procfs) is view-independent from every state satisfying the loop invariant; C15_never_early_procfs_probe_counterexample: a poll that asks the procfs view returns None at once for a live hidden process. Correspondence: the real pid_exists / whatever hook is passed runs over a simulated os.kill and a fake procfs whose entries follow per-case views (hide instant before the call / at, just before, just after a poll, the deadline, the exit; shown again or not; hidepid+EPERM, hidepid, PROCFS_PATH re-pointed) in 25 % of the single-process and 20 % of the wait_procs processes, plus an exhaustive family of 1 440 view cases through Process.wait, Popen.wait and wait_procs.",
+    "level_text": "Machine-checked Lean 4 proofs over a virtual-time model (exact rationals, fuelled loops) of _psposix.wait_pid, Process.wait, psutil.Popen.wait (psutil's wrapper only) and psutil.wait_procs incl. its argument checks, for EVERY exit instant, timeout, status word, EINTR pattern, set-iteration order and number of processes: never early, status decoding = wait(2) encoding for all exit codes 0-255 and signals 1-126 (with/without core), TimeoutExpired only at/after the deadline carrying seconds/pid and less than one 40 ms poll late, a process that ended by the deadline (in particular strictly between the last poll and the deadline) is never reported as timed out, sleep schedule min(0.1ms*2^n, 40ms), timeout=0 never sleeps, negative timeout -> ValueError, PID 0 -> ValueError with nothing cached, waiting for oneself can only time out, cached later calls, termination with a timeout (explicit fuel bound), EINTR cannot change a returned result; Popen.wait = Process.wait while returncode is unset, stores the returned status in both layers, answers from returncode at once afterwards; wait_procs partition / callback exactly once / returncode / gone-really-ended / alive-really-running at the return instant / return before deadline+40ms / termination with a timeout / ValueError then TypeError argument checks before anything else. Partial: 'TimeoutExpired only with the process still alive' is proved for calls whose last waitpid was not interrupted, with a proved counterexample (EINTR at the deadline) recorded as a known finding and a proof (C15_eintr_no_repair) that no waitpid-polling procedure can meet both clauses under persistent EINTR; the EINTR-at-the-deadline case (C15-eintr-deadline) is the one known finding left; 'negative timeout -> ValueError' for Popen.wait is proved at full strength for the code as it is now (C15_popen_wait_negative, through the obligation cfg_popen_validates_first), the code as found answered from a stored returncode first (proved counterexample C15_popen_wait_negative_counterexample; fixed in /repo by 3859330); syscalls cost zero virtual time. Second extension: wait_procs over psutil.Popen objects and mixed Process/Popen lists is PROVED to be wait_procs over Process objects in which a stored subprocess returncode sits in _exitcode (simulation theorem C15_wait_procs_mixed_is_wait_procs through every loop), so partition / callback once / returncode / gone-ended / deadline hold for them (C15_wait_procs_mixed); of several equal-but-not-identical objects set(procs) keeps the FIRST (C15_set_keeps_first: it alone is waited on, gets returncode, is called back, is returned); an unhashable item is a TypeError after the timeout validation (C15_wait_procs_arguments_unhashable); 'callback exactly once' is proved from ANY reachable intermediate state for ANY number of further passes, with or without timeout (C15_callback_once_any_passes[_no_timeout]); system calls that take time: a costed model of wait_pid (every _timer/waitpid/_pid_exists/_sleep call overshoots by cost k <= delta) equals the zero-cost model for delta = 0 (C15_costed_zero) and satisfies every bound with 40 ms replaced by 40 ms + 5*delta, never-early and not-before-the-deadline unchanged, 'still alive' weakened to 'alive delta before the raise' (C15_costed_bounds). Tied to the code by 16 translator facts (0.0001, *2, 0.04, check-before-sleep, >=, >= 0 validation, 1.0/len(alive), pid<=0 check, callable check, the three-part shape of Popen.wait, `for proc in alive` / `alive = alive - gone` in every pass, `alive = set(procs)` after the validation) feeding the proof obligations cfg_good / cfg_popen_validates_first / cfg_wait_procs_shape, by a differential run of the real functions over a virtual clock comparing result/exception fields, full sleep log, return instant, callback log, subprocess returncode, identity of the objects returned / called back / waited on, the per-call cost sequence of costed runs (400 quick / 20 000 thorough, real wait_pid vs the costed model), by an exhaustive sweep of all 65 536 status words and by the exhaustive enumeration of 2-3 processes x exit pass (1, 2, 3, never) x timeout (None, 50 ms, 3.5 s) = 196 wait_procs runs with a callback. Seeded round 5 (WHICH liveness probe is asked): the model carries a procfs VIEW per process (listed / not listed over time, independent of the kernel's truth) and a Probe (kill | procfs) derived from 3 new translator facts (the ECHILD branch polls `_pid_exists(pid)`; its default is _psposix.pid_exists whose only call is os.kill(pid, 0); _pslinux.Process.wait hands wait_pid no hook) under the obligation cfg_nonchild_probe; C15_wait_any_view / C15_never_early_any_view / C15_process_wait_any_view / C15_hidden_alive_only_times_out: for EVERY view the wait observes exactly what the view-free model observes, so every single-call theorem holds whatever procfs hides, in particular no result while the process is alive-but-hidden; C15_check_gone_any_view: one check_gone of wait_procs (whose is_running() reads procfs) is view-independent from every state satisfying the loop invariant; C15_never_early_procfs_probe_counterexample: a poll that asks the procfs view returns None at once for a live hidden process. Correspondence: the real pid_exists / whatever hook is passed runs over a simulated os.kill and a fake procfs whose entries follow per-case views (hide instant before the call / at, just before, just after a poll, the deadline, the exit; shown again or not; hidepid+EPERM, hidepid, PROCFS_PATH re-pointed) in 25 % of the single-process and 20 % of the wait_procs processes, plus an exhaustive family of 1 440 view cases through Process.wait, Popen.wait and wait_procs. Seeded round 5, C15-8 (WHICH clock each deadline computation reads): the model has TWO clocks — the steady one (virtual time of every theorem: sleep, exit instants, deadlines, return instants) and a WALL clock that is ANY function of steady time (steps forwards / backwards of any size at any moment) — and a Clock (steady | wall) for each of the four deadline computations (stop_at and the deadline check of wait_pid, deadline and deadline - now of wait_procs), derived from 4 new translator facts (the callee of each clock call followed through parameter defaults and single module-level bindings down to an attribute of the time module) under the obligation cfg_steady_clock; C15_wait_any_wall_clock / C15_timeout_honoured_any_wall_clock / C15_process_wait_any_wall_clock / C15_wait_procs_any_wall_clock / C15_wait_procs_deadline_any_wall_clock: for EVERY wall clock the wait, Process.wait, Popen.wait and the whole wait_procs (Process and Popen objects, argument checks) observe exactly what the one-clock model observes, so TimeoutExpired comes at/after the deadline and less than one poll late in STEADY time and any call with a timeout is over before start + timeout + 40 ms (new Spec clause timeoutHonoured); C15_wall_clock_forward_step_counterexample / C15_wall_clock_backward_step_counterexample: a wait whose deadline is measured on the wall clock raises 0.1 ms into a 1 s timeout after a forward step and hands back an exit code 10 ms beyond deadline + one poll after a backward step. Correspondence: two virtual clocks; every binding of a real clock function inside psutil is swapped for the virtual clock of the same kind by identity (defaults, module names) or through a proxy of the time module; 30 % of the single-process cases with a timeout and 25 % of the wait_procs cases carry a wall clock with 1-3 steps (1 us … 1 year, either direction; right after the call started / at, just before, just after a poll, the deadline, the exit / before the call / random), plus an exhaustive family of 864 one-step cases through wait_pid, Process.wait, Popen.wait and wait_procs.",
     "level_note": "Trusted: Lean kernel + {propext, Classical.choice, Quot.sound}; the translator; the correspondence harness and its simulated kernel; zero-cost syscalls; doubles = exact rationals; glibc W* macros as transcribed; subprocess.Popen replaced by a stub holding pid/returncode (its own poll() emulated as CPython's _handle_exitstatus).",
     "technique": "Lean 4 invariants over fuelled loops in virtual time (Rat) + translator-fed proof obligation + differential correspondence under a virtual clock with exhaustive status-word sweep",
     "design_ref": "DESIGN.md §5 C15",
@@ -46,6 +54,7 @@ MANIFEST = {
 ASSUMPTIONS = [
     "system calls take zero virtual time in every theorem except C15_costed_zero / C15_costed_bounds (wait_pid with per-call overshoot <= delta: 40 ms + 5*delta); wait_procs with costed calls is not modelled (its last attempt alone adds up to 4 calls per surviving process)",
     "Process.is_running() answers from the simulated kernel (a non-child that ended is gone from procfs; PID reuse is C01/C02's subject)",
+    "wall clock: a function of steady time (one reading per instant: a step lands between two instants, never between two readings made at the same virtual instant); the costed model (waitPidC) has one clock; wait_procs under a stepping wall clock is modelled over the view-free stack",
     "procfs views only HIDE: the tree under PROCFS_PATH never lists a PID the kernel (kill / waitpid) does not have — a stale or foreign-namespace entry is PID reuse, C01/C02's subject; the wait_procs MODEL is view-free (proved per check_gone step, C15_check_gone_any_view; the whole real wait_procs is compared with it under hidden views on every run)",
 ]
 
@@ -573,6 +582,157 @@ def _probe_facts(posix, linux):
     return out
 
 
+STEADY_NAMES = ("monotonic", "perf_counter")       # attributes of `time` that read a clock nobody can set
+WALL_NAMES = ("time",)                              # … and the one that reads the settable wall clock
+
+
+def _module_bindings(tree, name):
+    """every module-level statement that (re)binds `name`; plus a flag: rebound somewhere else (global / nested)"""
+    top, elsewhere = [], False
+    for st in tree.body:
+        if isinstance(st, ast.Assign) and any(isinstance(n, ast.Name) and n.id == name for t in st.targets for n in ast.walk(t)):
+            top.append(st)
+        elif isinstance(st, (ast.AugAssign, ast.AnnAssign)) and any(isinstance(n, ast.Name) and n.id == name for n in ast.walk(st.target)):
+            top.append(st)
+        elif isinstance(st, (ast.Import, ast.ImportFrom)) and any((al.asname or al.name.split(".")[0]) == name for al in st.names):
+            top.append(st)
+        elif isinstance(st, (ast.FunctionDef, ast.AsyncFunctionDef, ast.ClassDef)) and st.name == name:
+            top.append(st)
+    for st in ast.walk(tree):
+        if isinstance(st, ast.Global) and name in st.names:
+            elsewhere = True
+        if isinstance(st, (ast.Try, ast.If, ast.With, ast.For, ast.While)) and st in tree.body:
+            for sub in ast.walk(st):
+                if isinstance(sub, (ast.Import, ast.ImportFrom)) and any((al.asname or al.name.split(".")[0]) == name for al in sub.names):
+                    elsewhere = True
+                if isinstance(sub, ast.Assign) and any(isinstance(n, ast.Name) and n.id == name for t in sub.targets for n in ast.walk(t)):
+                    elsewhere = True
+    return top, elsewhere
+
+
+def _is_time_module(tree, node):
+    """`node` is the name `time`, bound at module level by `import time` and by nothing else"""
+    if not (isinstance(node, ast.Name) and node.id == "time"):
+        return False
+    top, elsewhere = _module_bindings(tree, "time")
+    return (not elsewhere and len(top) == 1 and isinstance(top[0], ast.Import)
+            and any(al.name == "time" and al.asname in (None, "time") for al in top[0].names))
+
+
+def _clock_of(tree, fns, expr, depth=0):
+    """which clock the callable expression `expr` reads: "steady" | "wall" | None (cannot tell). `fns` = the function
+    definitions enclosing the expression, innermost first (a name may be a parameter of any of them)."""
+    if depth > 6:
+        return None
+    if isinstance(expr, ast.Attribute) and _is_time_module(tree, expr.value):
+        return "steady" if expr.attr in STEADY_NAMES else "wall" if expr.attr in WALL_NAMES else None
+    if isinstance(expr, ast.Call) and isinstance(expr.func, ast.Name) and expr.func.id == "getattr" and not expr.keywords \
+            and len(expr.args) in (2, 3) and _is_time_module(tree, expr.args[0]) and isinstance(expr.args[1], ast.Constant):
+        # getattr(time, 'monotonic', <fallback>): the attribute exists on every supported Python, the fallback is dead
+        nm = expr.args[1].value
+        return "steady" if nm in STEADY_NAMES else "wall" if nm in WALL_NAMES else None
+    if isinstance(expr, ast.Name):
+        for k, fn in enumerate(fns):
+            a = fn.args
+            params = [x.arg for x in a.posonlyargs + a.args + a.kwonlyargs] + [x.arg for x in (a.vararg, a.kwarg) if x is not None]
+            assigned = any(isinstance(n, ast.Name) and n.id == expr.id and isinstance(n.ctx, (ast.Store, ast.Del))
+                           for st in fn.body for n in ast.walk(st))
+            declared = any(isinstance(n, (ast.Global, ast.Nonlocal)) and expr.id in n.names for st in fn.body for n in ast.walk(st))
+            if assigned and not declared:
+                return None             # a local (re)binding: not followed
+            if declared:
+                return None
+            if expr.id in params:
+                pos = a.posonlyargs + a.args
+                dflt = dict(zip([x.arg for x in pos][len(pos) - len(a.defaults):], a.defaults))
+                dflt.update({x.arg: v for x, v in zip(a.kwonlyargs, a.kw_defaults) if v is not None})
+                if expr.id not in dflt:
+                    return None
+                # a default is evaluated in the scope the function is DEFINED in
+                return _clock_of(tree, fns[k + 1:], dflt[expr.id], depth + 1)
+        top, elsewhere = _module_bindings(tree, expr.id)
+        if elsewhere or len(top) != 1:
+            return None
+        st = top[0]
+        if isinstance(st, ast.Assign) and len(st.targets) == 1 and isinstance(st.targets[0], ast.Name):
+            return _clock_of(tree, [], st.value, depth + 1)
+        if isinstance(st, ast.ImportFrom) and st.module == "time" and st.level == 0:
+            for al in st.names:
+                if (al.asname or al.name) == expr.id:
+                    return "steady" if al.name in STEADY_NAMES else "wall" if al.name in WALL_NAMES else None
+        return None
+    return None
+
+
+def _timer_calls(node):
+    """argument-less calls inside an expression (`_timer()`, `time.time()` …)"""
+    return [c for c in ast.walk(node) if isinstance(c, ast.Call) and not c.args and not c.keywords]
+
+
+def _clock_facts(posix, init):
+    """(seeded round 5, C15-8) WHICH clock each of the four deadline computations reads. Four independent, total facts
+    (True = the steady clock, False = the wall clock OR something the translator cannot resolve):
+       stop   — wait_pid: the one clock call in `stop_at = <clock>() + timeout`
+       check  — wait_pid / sleep(): the one clock call in the comparison with `stop_at` that guards `raise TimeoutExpired`
+       deadline — wait_procs: the one clock call in `deadline = <clock>() + timeout`
+       slice  — wait_procs: the one clock call in `timeout = min(deadline - <clock>(), max_timeout)`
+    The callee is followed through parameters' defaults and single module-level bindings down to an attribute of the `time` module."""
+    out = {"stop": False, "check": False, "deadline": False, "slice": False}
+
+    def one_clock(tree, fns, node):
+        cs = _timer_calls(node)
+        return len(cs) == 1 and _clock_of(tree, fns, cs[0].func) == "steady"
+
+    try:
+        fn = extract.find_def(posix, "wait_pid")
+    except Exception:  # noqa: BLE001
+        fn = None
+    if fn is not None:
+        try:
+            asg = [st for st in ast.walk(fn) if isinstance(st, ast.Assign)
+                   and any(isinstance(t, ast.Name) and t.id == "stop_at" for t in st.targets)]
+            out["stop"] = len(asg) == 1 and one_clock(posix, [fn], asg[0].value)
+        except Exception:  # noqa: BLE001
+            out["stop"] = False
+        try:
+            found = []
+            def visit(node, fns):
+                for ch in ast.iter_child_nodes(node):
+                    if isinstance(ch, (ast.FunctionDef, ast.AsyncFunctionDef, ast.Lambda)):
+                        if isinstance(ch, ast.Lambda):
+                            continue
+                        visit(ch, [ch] + fns)
+                    else:
+                        if isinstance(ch, ast.If) and any(isinstance(x, ast.Raise) and "TimeoutExpired" in extract.unparse(x)
+                                                          for b in ch.body for x in ast.walk(b)):
+                            found.append((ch, fns))
+                        visit(ch, fns)
+            visit(fn, [fn])
+            # every guard of a `raise TimeoutExpired` that mentions stop_at, innermost test first
+            tests = []
+            for ifn, fns in found:
+                if "stop_at" in extract.unparse(ifn.test):
+                    tests.append((ifn.test, fns))
+            out["check"] = len(tests) == 1 and one_clock(posix, tests[0][1], tests[0][0])
+        except Exception:  # noqa: BLE001
+            out["check"] = False
+    try:
+        wp = extract.find_def(init, "wait_procs")
+    except Exception:  # noqa: BLE001
+        wp = None
+    if wp is not None:
+        try:
+            own = [st for st in ast.walk(wp) if isinstance(st, ast.Assign)]
+            dl = [st for st in own if any(isinstance(t, ast.Name) and t.id == "deadline" for t in st.targets)]
+            out["deadline"] = len(dl) == 1 and one_clock(init, [wp], dl[0].value)
+            sl = [st for st in own if any(isinstance(t, ast.Name) and t.id == "timeout" for t in st.targets)
+                  and "deadline" in extract.unparse(st.value)]
+            out["slice"] = len(sl) == 1 and one_clock(init, [wp], sl[0].value)
+        except Exception:  # noqa: BLE001
+            out["deadline"] = out["slice"] = False
+    return out
+
+
 def facts(snap, F):
     posix = extract.parse_module(snap, "_psposix.py")
     init = extract.parse_module(snap, "__init__.py")
@@ -650,6 +810,21 @@ def facts(snap, F):
     F.try_add("linuxWaitPassesNoHook", "Bool", lambda: extract.lean_bool(pr()["linux"]),
               "_pslinux.Process.wait: `return _psposix.wait_pid(self.pid, timeout, self._name)` — no hook (`_pid_exists`, `_waitpid`, …) is handed over")
 
+    # (seeded round 5, C15-8) which clock each deadline computation reads; obligation cfg_steady_clock
+    def ck():
+        if "ck" not in d:
+            d["ck"] = _clock_facts(posix, init)
+        return d["ck"]
+
+    F.try_add("stopReadsSteady", "Bool", lambda: extract.lean_bool(ck()["stop"]),
+              "wait_pid: the clock called in `stop_at = <clock>() + timeout` resolves (parameter default / module binding) to time.monotonic")
+    F.try_add("checkReadsSteady", "Bool", lambda: extract.lean_bool(ck()["check"]),
+              "wait_pid: the clock called in the `stop_at` comparison guarding `raise TimeoutExpired` resolves to time.monotonic")
+    F.try_add("procsDeadlineSteady", "Bool", lambda: extract.lean_bool(ck()["deadline"]),
+              "wait_procs: the clock called in `deadline = <clock>() + timeout` resolves to time.monotonic")
+    F.try_add("procsSliceSteady", "Bool", lambda: extract.lean_bool(ck()["slice"]),
+              "wait_procs: the clock called in `timeout = min(deadline - <clock>(), max_timeout)` resolves to time.monotonic")
+
 
 # ------------------------------------------------------------------------------ simulated kernel
 
@@ -702,7 +877,24 @@ class World:
             self.costs.append(c)
             self.now += c
 
+    # (seeded round 5, C15-8) the WALL clock: steady time + base + the sum of the steps made so far; `now` is the STEADY
+    # clock (what sleep advances, what exit instants / deadlines / return instants are measured on)
+    wall_base = Fr(0)
+    wall_steps = ()
+
+    def set_wall(self, wall):
+        if not wall:
+            self.wall_base, self.wall_steps = Fr(0), ()
+        else:
+            self.wall_base = Fr(*wall["base"])
+            self.wall_steps = tuple((Fr(*a), Fr(*d)) for a, d in wall.get("steps", []))
+
+    def wall_reading(self, t):
+        return t + self.wall_base + sum((d for a, d in self.wall_steps if a <= t), Fr(0))
+
     def reset_logs(self):
+        self.wall_reads = 0       # readings of the WALL clock the implementation made
+        self.steady_reads = 0     # readings of the steady clock
         self.steps = 0
         self.cost_total = Fr(0)
         self.costs = []               # cost of every system call made, in order (costed runs)
@@ -748,8 +940,22 @@ class World:
 
     # -- entry points handed to psutil
     def timer(self):
+        """time.monotonic() / time.perf_counter(): the steady clock"""
         self.tick()
+        self.steady_reads += 1
         return self.now
+
+    def wall(self):
+        """time.time(): the wall clock (same cost accounting as any other call)"""
+        self.tick()
+        self.wall_reads += 1
+        return self.wall_reading(self.now)
+
+    def timer_ns(self):
+        return int(self.timer() * 10**9)
+
+    def wall_ns(self):
+        return int(self.wall() * 10**9)
 
     def sleep(self, x):
         self.tick()
@@ -911,9 +1117,17 @@ class Impl:
         # (seeded round 5) the liveness probe is NOT replaced: whatever `_pid_exists` the code hands to / defaults in
         # wait_pid runs for real, over the simulated kernel's `os.kill` and over the fake procfs tree — so that WHICH
         # probe the code asks is part of what is compared
-        over = {"_waitpid": w.waitpid, "_timer": w.timer, "_sleep": w.sleep}
+        # (seeded round 5, C15-8) the CLOCKS are not replaced by name either: whatever clock function a default
+        # parameter / a module-level name of psutil is bound to is swapped for the virtual clock OF THE SAME KIND
+        # (time.monotonic / perf_counter -> the steady clock, time.time -> the steppable wall clock, time.sleep ->
+        # the virtual sleep), by identity of the bound object; calls written `time.xxx()` go through a proxy of the
+        # `time` module with the same mapping — so that WHICH clock each deadline computation reads is part of
+        # what is compared
+        over = {"_waitpid": w.waitpid}
         px.wait_pid.__defaults__ = tuple(over.get(n, v) for n, v in zip(dnames, self.saved_defaults))
-        self.saved = [(px, "os", px.os), (px, "time", px.time), (ps, "_timer", ps._timer)]
+        self.saved = [(px, "os", px.os)]
+        self.saved_fn = []
+        self.bind_clocks([ps, px, getattr(ps, "_psplatform", None), getattr(ps, "_common", None)])
         px.os = _ModProxy(os, waitpid=w.waitpid, kill=w.kill)
         for mod in (ps, getattr(ps, "_psplatform", None)):
             # psutil/__init__.py and _pslinux.py see the same kernel (everything else of `os` passes through)
@@ -927,8 +1141,6 @@ class Impl:
             os.makedirs(os.path.dirname(os.path.join(self.alt, rel)), exist_ok=True)
             with open(os.path.join(self.alt, rel), "w") as f:
                 f.write(data)
-        px.time = _ModProxy(px.time, monotonic=w.timer, time=w.timer, sleep=w.sleep)
-        ps._timer = w.timer
         world = w
         # psutil.Popen.__init__ runs for real; only `subprocess.Popen` (CPython's, not psutil's) is a stub
         # that spawns nothing: .pid is the simulated PID, .returncode starts as None
@@ -979,8 +1191,66 @@ class Impl:
                 return super().is_running()
         self.VPopen = VPopen
 
+    def virtual_clock(self, v):
+        """the virtual counterpart of a real clock function (None = `v` is no clock function)"""
+        w = self.world
+        t = _realtime
+        table = [(t.sleep, w.sleep), (t.monotonic, w.timer), (t.perf_counter, w.timer), (t.time, w.wall),
+                 (getattr(t, "monotonic_ns", None), w.timer_ns), (getattr(t, "perf_counter_ns", None), w.timer_ns),
+                 (getattr(t, "time_ns", None), w.wall_ns)]
+        for real, virt in table:
+            if real is not None and v is real:
+                return virt
+        return None
+
+    def bind_clocks(self, mods):
+        import inspect
+        w = self.world
+        seen_fn = set()
+
+        def fix_fn(fn):
+            k = 0
+            while fn is not None and k < 8:
+                k += 1
+                fn = getattr(fn, "__func__", fn)
+                if inspect.isfunction(fn) and id(fn) not in seen_fn:
+                    seen_fn.add(id(fn))
+                    d, kd = fn.__defaults__, fn.__kwdefaults__
+                    nd = None if d is None else tuple(self.virtual_clock(x) or x for x in d)
+                    nkd = None if kd is None else {a: (self.virtual_clock(x) or x) for a, x in kd.items()}
+                    if (d is not None and any(a is not b for a, b in zip(d, nd))) or \
+                            (kd is not None and any(kd[a] is not nkd[a] for a in kd)):
+                        self.saved_fn.append((fn, d, kd))
+                        fn.__defaults__, fn.__kwdefaults__ = nd, nkd
+                fn = getattr(fn, "__wrapped__", None)
+        for mod in mods:
+            if mod is None:
+                continue
+            if getattr(mod, "time", None) is _realtime:
+                self.saved.append((mod, "time", mod.time))
+                mod.time = _ModProxy(_realtime, monotonic=w.timer, perf_counter=w.timer, time=w.wall, sleep=w.sleep,
+                                     monotonic_ns=w.timer_ns, perf_counter_ns=w.timer_ns, time_ns=w.wall_ns)
+            for name, v in list(vars(mod).items()):
+                virt = None
+                try:
+                    virt = self.virtual_clock(v)
+                except Exception:  # noqa: BLE001
+                    pass
+                if virt is not None:
+                    self.saved.append((mod, name, v))
+                    setattr(mod, name, virt)
+                elif inspect.isfunction(v) and getattr(v, "__module__", None) == mod.__name__:
+                    fix_fn(v)
+                elif inspect.isclass(v) and getattr(v, "__module__", None) == mod.__name__:
+                    for _, m in list(vars(v).items()):
+                        if inspect.isfunction(m) or isinstance(m, (staticmethod, classmethod)):
+                            fix_fn(m)
+
     def close(self):
         self.px.wait_pid.__defaults__ = self.saved_defaults
+        for fn, d, kd in self.saved_fn:
+            if fn is not self.px.wait_pid:
+                fn.__defaults__, fn.__kwdefaults__ = d, kd
         for obj, name, val in self.saved:
             setattr(obj, name, val)
         self.fp.close()
@@ -1018,6 +1288,7 @@ class Impl:
         w.now = Fr(start)
         w.procs = {}
         w.max_sleeps = FUEL
+        w.set_wall(None)
         w.reset_logs()
         if self.ps.PROCFS_PATH != self.fp.root:
             self.ps.PROCFS_PATH = self.fp.root
@@ -1047,6 +1318,7 @@ class Impl:
         """direct `_psposix.wait_pid(pid, timeout)`"""
         self.new_world(Fr(*case["start"]))
         w = self.world
+        w.set_wall(case.get("wall"))
         pid = case["pid"]
         # a pid <= 0 names no process: the environment describes a child the caller has (waitpid(-1) would reap it)
         w.add(pid if pid > 0 else ANY_CHILD_PID, case["env"])
@@ -1055,13 +1327,15 @@ class Impl:
         out = self.outcome(lambda: self.px.wait_pid(pid, tmo))
         return {"out": out, "ret": jrat(w.now), "sleeps": [jrat(s) for s in w.sleeps],
                 "nwait": w.procs[pid]["nwait"] if pid in w.procs else 0,
-                "last_eintr": w.last_wait_eintr, "hidden_polls": w.hidden_polls}
+                "last_eintr": w.last_wait_eintr, "hidden_polls": w.hidden_polls, "wall_reads": w.wall_reads,
+                "steady_reads": w.steady_reads}
 
     def run_pwait(self, case):
         """a sequence of `Process.wait(timeout)` calls on one object"""
         first_at = Fr(*case["calls"][0]["at"])
         self.new_world(first_at)
         w = self.world
+        w.set_wall(case.get("wall"))
         pid = real_pid(case["pid"])
         self.ensure_proc(pid)
         try:
@@ -1086,7 +1360,8 @@ class Impl:
             out = self.outcome(lambda: proc.wait(tmo))
             obs.append({"out": out, "start": jrat(t_start), "ret": jrat(w.now), "sleeps": [jrat(s) for s in w.sleeps],
                         "nwait": w.procs[pid]["nwait"] - n0, "oscalls": w.oscalls,
-                        "last_eintr": w.last_wait_eintr, "hidden_polls": w.hidden_polls})
+                        "last_eintr": w.last_wait_eintr, "hidden_polls": w.hidden_polls, "wall_reads": w.wall_reads,
+                        "steady_reads": w.steady_reads})
             if out["kind"] in ("hang", "fuel"):
                 break
         return obs
@@ -1097,6 +1372,7 @@ class Impl:
         first_at = Fr(*case["calls"][0]["at"])
         self.new_world(first_at)
         w = self.world
+        w.set_wall(case.get("wall"))
         pid = case["pid"]
         self.ensure_proc(pid)
         self.next_popen_pid = pid
@@ -1140,7 +1416,8 @@ class Impl:
                 rcj = {"bad": repr(rc)}
             obs.append({"out": out, "start": jrat(t_start), "ret": jrat(w.now), "sleeps": [jrat(s) for s in w.sleeps],
                         "nwait": w.procs[pid]["nwait"] - n0, "oscalls": w.oscalls,
-                        "last_eintr": w.last_wait_eintr, "hidden_polls": w.hidden_polls, "rc": rcj, "ext": ext,
+                        "last_eintr": w.last_wait_eintr, "hidden_polls": w.hidden_polls, "wall_reads": w.wall_reads,
+                        "steady_reads": w.steady_reads, "rc": rcj, "ext": ext,
                         "stored_before": None if before is None else int(before)})
             if out["kind"] in ("hang", "fuel"):
                 break
@@ -1153,6 +1430,7 @@ class Impl:
         start = Fr(*case["start"])
         self.new_world(start)
         w = self.world
+        w.set_wall(case.get("wall"))
         objs = {}
         stubs = {}
         try:
@@ -1241,7 +1519,7 @@ class Impl:
         flat = [pid for pid, _ in w.calls]
         if out["kind"] != "none":
             return {"kind": "raised", "out": out, "flat": flat, "oscalls": w.oscalls, "ret": jrat(w.now),
-                    "rc0": rc0, "hidden_polls": w.hidden_polls}
+                    "rc0": rc0, "hidden_polls": w.hidden_polls, "wall_reads": w.wall_reads, "steady_reads": w.steady_reads}
         gone, alive = res["r"]
         rep = {}
         for o in list(gone) + list(alive):
@@ -1291,7 +1569,7 @@ class Impl:
                 "gone_pos": [pos_of.get(id(o), -1) for o in gone], "alive_pos": [pos_of.get(id(o), -1) for o in alive],
                 "cb_pos": cbpos, "waited_pos": sorted({pos_of.get(i, -1) for i in w.waited_ids}),
                 "twins_untouched": untouched_ok, "touched": touched, "subs": subs, "rc0": rc0, "bad_attr": bad_attr,
-                "hidden_polls": w.hidden_polls,
+                "hidden_polls": w.hidden_polls, "wall_reads": w.wall_reads, "steady_reads": w.steady_reads,
                 "hidden_alive_at_return": sorted(pid for pid, q in w.procs.items()
                                                  if q["kind"] != "never" and not q["reaped"] and not w.ended(q) and w.hidden(q))}
 
@@ -1451,6 +1729,41 @@ def gen_view(rng, start, timeout, exit_at, hows=VIEW_HOW):
     return {"hideAt": jrat(hide), "showAt": None if show is None else jrat(show), "how": how, "kill": kill}, fam
 
 
+WALL_BASES = [Fr(0), Fr(1700000000), Fr(1700000000) + Fr(123456, 10**6), Fr(-5), Fr(86400 * 365 * 60)]
+WALL_DELTAS = [Fr(1, 10**6), Fr(1, 10000), Fr(1, 1000), Fr(1, 25), Fr(1, 2), Fr(1), Fr(37), Fr(3600), Fr(86400 * 365)]
+
+
+def gen_wall(rng, start, timeout, exit_at, n_polls=14):
+    """(seeded round 5, C15-8) the WALL clock of the case: `base` ahead of the steady clock, then stepped 1-3 times, forwards
+    or backwards, by 1 us … a year. A step is placed right after the call started (between the computation of the
+    deadline and the first check), exactly at / just before / just after a polling instant, the deadline, the exit
+    instant, in the one-poll-late window, before the call (harmless), or at random."""
+    deadline = None if timeout is None else start + timeout
+    steps, fams = [], []
+    for _ in range(rng.choice([1, 1, 1, 2, 2, 3])):
+        r = rng.random()
+        if r < 0.25:
+            at, fam = start + rng.choice(EPS + [I0 / 2]), "after-start"
+        elif r < 0.55:
+            t, how = near(rng, start + POLLS[rng.randrange(0, n_polls)])
+            at, fam = t, "poll-" + how
+        elif r < 0.75 and deadline is not None:
+            t, how = near(rng, deadline - rng.choice([Fr(0), Fr(0), I0, CAP / 2]))
+            at, fam = t, "deadline-" + how
+        elif r < 0.85 and exit_at is not None:
+            t, how = near(rng, exit_at)
+            at, fam = t, "exit-" + how
+        elif r < 0.9:
+            at, fam = start - rng.choice([Fr(1), Fr(1, 1000)]), "before-call"
+        else:
+            at, fam = start + Fr(rng.randrange(0, 20000), 10000), "random"
+        delta = rng.choice(WALL_DELTAS) * rng.choice([1, 1, -1, -1, -1])
+        steps.append([jrat(at), jrat(delta)])
+        fams.append(("fwd" if delta > 0 else "back") + "@" + fam)
+    steps.sort(key=lambda x: Fr(*x[0]))
+    return {"base": jrat(rng.choice(WALL_BASES)), "steps": steps}, "+".join(sorted(set(fams)))
+
+
 def jenv(kind, status, exit_at, eintr):
     """`eintr` = list of booleans (calls beyond the list are not interrupted) or "always" """
     d = {"kind": kind, "status": status, "exitAt": None if exit_at is None else jrat(exit_at),
@@ -1510,9 +1823,14 @@ def gen_wait_case(rng):
         # (seeded round 5) a procfs view that hides the (living) process: kill(pid, 0) and procfs disagree
         env["view"], vfam = gen_view(rng, start, timeout, exit_at)
         fam = dict(fam, view=vfam)
-    return {"op": "wait", "env": env, "pid": pid,
+    case = {"op": "wait", "env": env, "pid": pid,
             "timeout": None if timeout is None else jrat(timeout), "start": jrat(start), "fuel": FUEL,
             "fam": fam}
+    if rng.random() < (0.3 if timeout is not None else 0.1):
+        # (seeded round 5, C15-8) a wall clock that is stepped while (before, after) the call polls
+        case["wall"], cfam = gen_wall(rng, start, timeout, exit_at)
+        case["fam"] = dict(fam, clock=cfam)
+    return case
 
 
 def gen_pwait_case(rng):
@@ -1551,7 +1869,10 @@ def gen_pwait_case(rng):
         calls.append({"timeout": None if tm is None else jrat(tm), "at": jrat(t)})
     # every call starts no earlier than the previous one could have ended: the harness moves the
     # clock forward only, and tells the driver the instant each call really started
-    return {"op": "pwait", "env": c["env"], "pid": c["pid"], "fuel": FUEL, "calls": calls, "fam": c["fam"]}
+    out = {"op": "pwait", "env": c["env"], "pid": c["pid"], "fuel": FUEL, "calls": calls, "fam": c["fam"]}
+    if c.get("wall"):
+        out["wall"] = c["wall"]
+    return out
 
 
 def gen_popen_case(rng):
@@ -1586,7 +1907,10 @@ def gen_popen_case(rng):
         if rng.random() < 0.25:
             call["ext"] = True
         calls.append(call)
-    return {"op": "popen", "env": c["env"], "pid": c["pid"], "fuel": FUEL, "calls": calls, "fam": c["fam"]}
+    out = {"op": "popen", "env": c["env"], "pid": c["pid"], "fuel": FUEL, "calls": calls, "fam": c["fam"]}
+    if c.get("wall"):
+        out["wall"] = c["wall"]
+    return out
 
 
 def gen_wprocs_case(rng):
@@ -1663,6 +1987,12 @@ def gen_wprocs_case(rng):
             "fam": {"timeout": tfam, "n": n}}
     if any(p["env"].get("view") for p in procs):
         case["fam"]["view"] = True
+    if rng.random() < (0.25 if timeout is not None else 0.05):
+        # (seeded round 5, C15-8) the wall clock is stepped while wait_procs slices its deadline
+        exits = [Fr(*p["env"]["exitAt"]) for p in procs if p["env"].get("exitAt") is not None]
+        case["wall"], cfam = gen_wall(rng, start, timeout if (timeout is None or timeout >= 0) else None,
+                                      rng.choice(exits) if exits else None, n_polls=24)
+        case["fam"]["clock"] = cfam
     if rng.random() < 0.06:
         # callback that is neither None nor callable (a negative timeout is still reported first)
         case["hasCb"] = True
@@ -1735,6 +2065,38 @@ def view_enum_cases():
     return out
 
 
+# ---- exhaustive family (seeded round 5, C15-8): ONE step of the wall clock, through every entry point
+#      entry point x kind x exit (never, before the deadline, after deadline + one poll) x direction x size x step instant x timeout
+def clock_enum_cases():
+    import itertools
+    out = []
+    start = Fr(0)
+    tmos = {"1ms": Fr(1, 1000), "50ms": Fr(1, 20), "1s": Fr(1)}
+    sizes = {"1ms": Fr(1, 1000), "1h": Fr(3600)}
+    ats = {"after-start": lambda tmo: start + I0 / 2, "3rd-poll": lambda tmo: start + POLLS[3],
+           "before-deadline": lambda tmo: start + tmo - I0 / 4}
+    exits = {"never": lambda tmo: None, "before-deadline": lambda tmo: start + tmo / 2,
+             "late": lambda tmo: start + tmo + CAP + Fr(1, 100)}
+    for op, kind, (en, ex), sign, (zn, size), (an, at), (tn, tmo) in itertools.product(
+            ("wait", "pwait", "popen", "wprocs"), ("child", "nonchild"), exits.items(), (1, -1), sizes.items(), ats.items(), tmos.items()):
+        wall = {"base": jrat(Fr(1700000000)), "steps": [[jrat(at(tmo)), jrat(sign * size)]]}
+        env = jenv(kind, 7 << 8 if kind == "child" else 0, ex(tmo), [])
+        cfam = ("fwd" if sign > 0 else "back") + "-" + zn + "@" + an
+        fam = {"timeout": "clock-enum-" + tn, "kind": kind, "status": "exit" if kind == "child" else "-", "place": "clock-enum-" + en,
+               "eintr": "none", "clock": "enum:" + cfam, "clock_enum": True}
+        if op == "wprocs":
+            out.append({"op": "wprocs", "procs": [{"pid": 4003, "env": env}], "list": [[4003, 0]], "timeout": jrat(tmo),
+                        "start": jrat(start), "hasCb": True, "fuel": FUEL, "wall": wall,
+                        "fam": {"timeout": "clock-enum-" + tn, "n": 1, "clock": "enum:" + cfam, "clock_enum": True}})
+        elif op == "wait":
+            out.append({"op": "wait", "env": env, "pid": 4003, "timeout": jrat(tmo), "start": jrat(start), "fuel": FUEL,
+                        "wall": wall, "fam": fam})
+        else:
+            out.append({"op": op, "env": env, "pid": 4003, "fuel": FUEL, "wall": wall,
+                        "calls": [{"timeout": jrat(tmo), "at": jrat(start)}, {"timeout": [0, 1], "at": jrat(start + 2)}], "fam": fam})
+    return out
+
+
 CORPUS = [
     # child killed by SIGKILL between the 4th and 5th poll, timeout 10 ms
     {"op": "wait", "env": jenv("child", 9, Fr(1, 1000), []), "pid": 4001, "timeout": jrat(Fr(1, 100)),
@@ -1796,6 +2158,20 @@ CORPUS = [
                                                        view={"hideAt": [-1, 1], "showAt": None, "how": "hidepid", "kill": "eperm"})}],
      "list": [[4004, 0]], "timeout": [1, 10], "start": [0, 1], "hasCb": True, "fuel": FUEL,
      "fam": {"timeout": "round", "n": 1, "view": True}},
+    # (seeded round 5, C15-8) witnesses of the round (Lean: fwdWall / backWall): the wall clock is stepped by an hour 0.05 ms
+    # after the call started. Forward: some other process that never ends, wait(1 s) must raise after 1 s, not after 0.1 ms;
+    # backward: a child that ends at 50 ms, wait(1 ms) must raise TimeoutExpired at ~1 ms, not hand back the code at 51 ms
+    {"op": "pwait", "env": jenv("nonchild", 0, None, []), "pid": 4005, "fuel": FUEL,
+     "wall": {"base": [1700000000, 1], "steps": [[[1, 20000], [3600, 1]]]},
+     "calls": [{"timeout": [1, 1], "at": [0, 1]}],
+     "fam": {"timeout": "round", "kind": "nonchild", "status": "-", "place": "never", "eintr": "none", "clock": "fwd@after-start"}},
+    {"op": "pwait", "env": jenv("child", 0, Fr(1, 20), []), "pid": 4006, "fuel": FUEL,
+     "wall": {"base": [1700000000, 1], "steps": [[[1, 20000], [-3600, 1]]]},
+     "calls": [{"timeout": [1, 1000], "at": [0, 1]}],
+     "fam": {"timeout": "round", "kind": "child", "status": "exit", "place": "random", "eintr": "none", "clock": "back@after-start"}},
+    {"op": "wprocs", "procs": [{"pid": 4006, "env": jenv("child", 0, Fr(3, 2), [])}], "list": [[4006, 0]],
+     "wall": {"base": [0, 1], "steps": [[[1, 20000], [-3600, 1]]]},
+     "timeout": [3, 10], "start": [0, 1], "hasCb": True, "fuel": FUEL, "fam": {"timeout": "round", "n": 1, "clock": "back@after-start"}},
     # wait_procs with a callback that is not callable
     {"op": "wprocs", "procs": [{"pid": 4001, "env": jenv("child", 0, Fr(0), [])}], "list": [[4001, 0]],
      "timeout": [1, 10], "start": [0, 1], "hasCb": True, "cb": "bad", "fuel": FUEL, "fam": {"timeout": "round", "n": 1, "cb": "bad"}},
@@ -1893,6 +2269,8 @@ def wprocs_line(case, ob):
             "flat": ob.get("flat", []), "fuel": case["fuel"]}
     if case.get("unhashable") is not None:
         line["hashable"] = False
+    if case.get("wall"):
+        line["wall"] = case["wall"]
     if case.get("cb"):
         line["cb"] = case["cb"]
     if ob["kind"] == "ok":
@@ -1921,7 +2299,7 @@ def evaluate(ctx, impl, cases, res, source="generated"):
                 line["obs"] = obs_line(ob)
         elif case["op"] == "waitc":
             ob = impl.run_waitc(case)
-            line = {k: v for k, v in strip(case).items() if k != "cost_seed"}
+            line = {k: v for k, v in strip(case).items() if k not in ("cost_seed", "wall")}
             line["costs"] = ob["costs"]
             if representable(ob["out"]):
                 line["obs"] = obs_line(ob)
@@ -2187,6 +2565,34 @@ POLLS_IV = [min(I0 * 2 ** k, CAP) for k in range(FUEL + 1)]
 # ------------------------------------------------------------------------------ correspondence
 
 
+def clock_features(case, obs, start):
+    """(seeded round 5, C15-8) what the wall-clock family exercised in this case"""
+    f = ["clock:" + case["op"] + " cases with a stepping wall clock"]
+    steps = [(Fr(*a), Fr(*d)) for a, d in case["wall"]["steps"]]
+    ends = [Fr(*o["ret"]) for o in obs if isinstance(o, dict) and o.get("ret") is not None]
+    end = max(ends) if ends else start
+    landed = [(a, d) for a, d in steps if start < a <= end]
+    if landed:
+        f.append("clock:step landed while the call was polling")
+        if any(d > 0 for _, d in landed):
+            f.append("clock:forward step while polling")
+        if any(d < 0 for _, d in landed):
+            f.append("clock:backward step while polling")
+        if any(abs(d) >= 1 for _, d in landed):
+            f.append("clock:step of >= 1 s while polling")
+        if any(isinstance(o, dict) and (o.get("out") or {}).get("kind") == "timeout" for o in obs):
+            f.append("clock:TimeoutExpired in a run during which the wall clock was stepped")
+    for x in str(case["fam"].get("clock", "?")).split("+"):
+        f.append("clock:step=" + x)
+    if any(isinstance(o, dict) and o.get("wall_reads") for o in obs):
+        f.append("clock:the implementation READ the wall clock")
+    if any(isinstance(o, dict) and o.get("steady_reads") for o in obs):
+        f.append("clock:deadline computations read the steady clock (>=1 reading)")
+    if case["fam"].get("clock_enum"):
+        f.append("clock:enum")
+    return f
+
+
 def features(case, ob):
     f = []
     if case["op"] == "wprocs":
@@ -2229,6 +2635,8 @@ def features(case, ob):
                 f.append("view:wprocs alive-but-hidden process reported alive")
             if case["fam"].get("view_enum"):
                 f.append("view:enum")
+        if case.get("wall"):
+            f.extend(clock_features(case, [ob], Fr(*case["start"])))
         if case["fam"].get("enum"):
             f.append("wprocs:enum")
             if ob.get("kind") == "ok":
@@ -2266,6 +2674,9 @@ def features(case, ob):
                 f.append("view:hidden-alive process -> TimeoutExpired")
         if fam.get("view_enum"):
             f.append("view:enum")
+    if case.get("wall"):
+        st0 = Fr(*case["start"]) if "start" in case else Fr(*case["calls"][0]["at"])
+        f.extend(clock_features(case, obs, st0))
     f.append(case["op"] + ":kind=" + fam["kind"])
     f.append(case["op"] + ":timeout=" + fam["timeout"])
     f.append(case["op"] + ":place=" + fam["place"])
@@ -2300,7 +2711,10 @@ def correspond(ctx, res, sweep=True):
                     "wait call; distinct = distinct canonical cases; plus all 65 536 status words; (seeded round 5) a quarter of "
                     "the living processes get a procfs view that does not list them from an instant placed before the call / "
                     "at a poll / the deadline / the exit (kill(pid, 0) and procfs disagree), realised as hidepid or a re-pointed "
-                    "PROCFS_PATH, the liveness probe being whatever the real code asks")
+                    "PROCFS_PATH, the liveness probe being whatever the real code asks; (seeded round 5, C15-8) 30 % of the "
+                    "single-process cases with a timeout and 25 % of the wait_procs cases run under a WALL clock that is stepped 1-3 "
+                    "times (1 us … 1 year, forwards or backwards; right after the call started, at / around a poll, the deadline, the "
+                    "exit, before the call, at random), the clocks read being whatever the real code reads")
         n = ctx.n(5000, 150000)
         cases = list(CORPUS)
         for i in range(n):
@@ -2324,6 +2738,8 @@ def correspond(ctx, res, sweep=True):
             c = gen_wait_case(ctx.rng)
             while c["pid"] <= 0:
                 c = gen_wait_case(ctx.rng)
+            c.pop("wall", None)     # the costed model has one clock (a costed two-clock model is not built)
+            c["fam"].pop("clock", None)
             costed.append(dict(c, op="waitc", cost_seed=ctx.rng.randrange(1 << 30)))
         for a in range(0, len(costed), CH):
             evaluate_and_count(ctx, impl, costed[a:a + CH], res, "generated (system calls take 0-1 ms)")
@@ -2336,6 +2752,11 @@ def correspond(ctx, res, sweep=True):
         for a in range(0, len(ven), CH):
             evaluate_and_count(ctx, impl, ven[a:a + CH], res, "enumerated (procfs views)")
         res.count("view:enum cases", len(ven))
+        # exhaustive (seeded round 5, C15-8): one step of the wall clock x entry point x kind x exit x direction x size x instant x timeout
+        cen = clock_enum_cases()
+        for a in range(0, len(cen), CH):
+            evaluate_and_count(ctx, impl, cen[a:a + CH], res, "enumerated (wall-clock steps)")
+        res.count("clock:enum cases", len(cen))
         if sweep:
             status_sweep(ctx, impl, res)
             res.exhaustive = ("all 65 536 16-bit wait status words through the real wait_pid (WNOHANG and blocking paths) "
@@ -2346,6 +2767,10 @@ def correspond(ctx, res, sweep=True):
                               "(never, before the hide, while hidden, later) x hide instant (before the call, 2nd poll, 4th poll) x shown "
                               "again or not x timeout (0, 1 ms, 50 ms, None) x realisation (hidepid+EPERM, hidepid, PROCFS_PATH re-pointed): "
                               "%d cases; " % len(ven) +
+                              "one step of the wall clock: entry point (wait_pid, Process.wait, Popen.wait, wait_procs) x child/non-child x "
+                              "exit (never, before the deadline, after deadline + one poll) x forward/backward x size (1 ms, 1 h) x instant "
+                              "(right after the call started, 4th poll, just before the deadline) x timeout (1 ms, 50 ms, 1 s): %d cases; "
+                              % len(cen) +
                               "other environments are samples")
     finally:
         impl.close()
@@ -2410,6 +2835,14 @@ def _candidates(case):
     fam = {"timeout": "?", "kind": "?", "status": "?", "place": "?", "eintr": "?", "n": 0}
     best = dict(case, fam=fam)
     cands = []
+    wl = case.get("wall")
+    if wl:
+        cands.append({k: x for k, x in best.items() if k != "wall"})
+        if len(wl["steps"]) > 1:
+            for i in range(len(wl["steps"])):
+                cands.append(dict(best, wall=dict(wl, steps=[wl["steps"][i]])))
+        if wl["base"] != [0, 1]:
+            cands.append(dict(best, wall=dict(wl, base=[0, 1])))
     if case["op"] in ("wait", "waitc", "pwait", "popen"):
         v = case["env"].get("view")
         if v:
